@@ -3,7 +3,7 @@
    STUN-shaped or not): "unmodified" is identity of the token; packetio.Buffer is assumed FIFO. *)
 From Coq Require Import ZArith Bool List.
 From Ice Require Import Model.AgentTypes Model.AgentCore Model.AgentObs Model.AgentMonitors Gen.Consts
-     Proofs.AgentFrame Proofs.AgentC07 Proofs.AgentC06 Proofs.AgentC03Sel Proofs.AgentRem Proofs.AgentEnds Proofs.AgentSentStats.
+     Proofs.AgentFrame Proofs.AgentC07 Proofs.AgentC06 Proofs.AgentC03Sel Proofs.AgentRem Proofs.AgentEnds Proofs.AgentSentStats Model.PairMonitor Model.TwoAgents Model.TwoAgentsData Proofs.TwoAgentsDataProofs.
 Import ListNotations.
 Local Open Scope Z_scope.
 
@@ -167,3 +167,51 @@ Module C07_example_selected_pair.
   Example counters_after : (s_bytes_sent (runs cfg s ops), map (fun p => (p_id p, p_bytes_sent p, p_pkts_sent p)) (s_checklist (runs cfg s ops))) = (150, [(1, 150, 2)]).
   Proof. vm_compute. reflexivity. Qed.
 End C07_example_selected_pair.
+
+(* ---- across two agents (Model/TwoAgentsData.v: the two-agent system of C01 with application datagrams routed like
+   STUN ones and delivered, dropped or duplicated at will): "arrives unmodified ... at the peer's reader" and nothing
+   else does.  After ANY schedule every payload in a reader's queue -- hence whatever Conn.Read yields next
+   (C07_read_fifo) -- and every application datagram in flight is a payload the peer handed to Write / WriteToPair. *)
+Theorem C07_reader_only_holds_what_the_peer_wrote : forall cfga cfgb t lua lpa lub lpb ops,
+  let d := dsys_run cfga cfgb t (dsys_init lua lpa lub lpb) ops in
+  (forall p, In p (s_buf (sy_a (d_sys d))) -> In p (written_by false ops)) /\
+  (forall p, In p (s_buf (sy_b (d_sys d))) -> In p (written_by true ops)) /\
+  (forall f, In f (d_net d) -> In (d_pl f) (written_by (negb (d_to_a f)) ops)).
+Proof. exact reader_only_holds_what_the_peer_wrote. Qed.
+Print Assumptions C07_reader_only_holds_what_the_peer_wrote.
+
+(* single operations: a written datagram carries exactly the payload given to Write; the reader's queue grows only by
+   the datagram just delivered; only Read delivers, and from the queue *)
+Theorem C07_writes_are_unmodified : forall cfg o s,
+  Forall (fun x => match x with OData _ _ q => data_of_op o = Some q | _ => True end) (snd (step cfg s o)).
+Proof. intros cfg o s. exact (writes_are_unmodified cfg o s). Qed.
+Print Assumptions C07_writes_are_unmodified.
+
+Theorem C07_queue_and_read : forall cfg s o,
+  incl (s_buf (fst (step cfg s o))) (s_buf s ++ extra_of o) /\
+  (forall p, In (ODeliver p) (snd (step cfg s o)) -> In p (s_buf s)).
+Proof. exact step_queue. Qed.
+Print Assumptions C07_queue_and_read.
+
+(* non-vacuity: the two agents of the C01 example connect; A writes, the datagram is duplicated in the network and both
+   copies arrive: B's reader holds the payload twice ("once per delivered datagram") and nothing else *)
+Module C07_example_pair.
+  Definition cfg t := mkConfig false t 7 5000000000 false 25000000000 0 0 0 0 0 [] false false 1.
+  Definition aA := mkAddr false 167772161 5000.
+  Definition aB := mkAddr false 3232235777 6000.
+  Definition la := mkCand 1 1 1 aA 0 2130706431 1 None.
+  Definition lb := mkCand 1 1 1 aB 0 2130706431 1 None.
+  Definition topo := mkTopology [mkEndpoint 1 aA] [mkEndpoint 1 aB] [[(true, true)]].
+  Definition connect :=
+    map DSys [SApi true (AddLocal la); SApi false (AddLocal lb); SApi true (Start true 3 4); SApi false (Start false 1 2);
+     SApi true (AddRemote (set_c_h 2 lb)); SApi false (AddRemote (set_c_h 2 la));
+     SApi true Tick; SDeliver 0; SDeliver 0; SApi false Tick; SDeliver 0; SDeliver 0;
+     SApi true (Advance 200000000); SApi true Tick; SDeliver 0; SDeliver 0; SDeliver 0; SDeliver 0;
+     SApi true (Advance 200000000); SApi true Tick; SDeliver 0; SDeliver 0; SDeliver 0; SDeliver 0].
+  Definition pl := mkPayload 1 100 false.
+  Definition ops := connect ++ [DSys (SApi true (Write pl)); DDup 0; DDeliver 0; DDeliver 0].
+  Example delivered_twice :
+    let d := dsys_run (cfg 5) (cfg 6) topo (dsys_init 1 2 3 4) ops in
+    s_buf (sy_b (d_sys d)) = [pl; pl] /\ d_net d = [] /\ written_by true ops = [pl].
+  Proof. vm_compute. repeat split. Qed.
+End C07_example_pair.
